@@ -223,7 +223,10 @@ Definition same_view (po o : obs) : bool :=
 
 Definition first_nonzero (l : list Z) : Z := match filter (fun x => negb (x =? 0)) l with x :: _ => x | [] => 0 end.
 
-Definition p03 (k : case) (po : obs) (c : cop) (o : obs) : Z :=
+(** [strict]: "a claim succeeds IF AND ONLY IF it presents the pre-image of an open contract"; after an
+    incompatible parameter change only "... ONLY IF ..." is demanded (a valid claim of an incoming transfer
+    may then legitimately be refused by the supply limits) *)
+Definition p03 (k : case) (strict : bool) (po : obs) (c : cop) (o : obs) : Z :=
   let h0 := o_height po in
   let h1 := o_height o in
   let sm := if forallb2 (trans_ok h0 h1) (o_contracts po) (o_contracts o) then 0 else 1 in
@@ -248,7 +251,7 @@ Definition p03 (k : case) (po : obs) (c : cop) (o : obs) : Z :=
                     | Some (Some p') => (c_state_of p' =? 0) && eqb (secret, c_ts_of p') (id_hl id) && (0 <=? who)
                     | _ => false
                     end in
-      if negb (eqb (o_code o =? 0) expect) then 3
+      if (if strict then negb (eqb (o_code o =? 0) expect) else (o_code o =? 0) && negb expect) then 3
       else if negb (o_code o =? 0) then (if same_view po o then 0 else 5)
       else
         let opv := match nthZ idx (o_contracts po), nthZ idx (o_contracts o) with
@@ -317,7 +320,7 @@ Definition wclaims (k : case) (po o : obs) (ws : list (Z * Z)) : list (Z * Z) :=
 
 (** 0 = holds; 1 escrow_eq_open, 2 incoming_outgoing_eq_open, 3 current_eq_minted_minus_burned
     (and = bank supply), 4 limits_respected *)
-Definition p04 (k : case) (P : list aparam) (o : obs) (ws : list (Z * Z)) : Z :=
+Definition p04 (k : case) (lim : bool) (P : list aparam) (o : obs) (ws : list (Z * Z)) : Z :=
   let esc := match nthZ (k_nactors k) (o_bals o) with Some r => r | None => [] end in
   let c1 := eqb esc (map (fun d => sum_where k o (fun c => is_open c && locks c) d) (denoms_of o)) in
   let per_asset (f : aparam -> (Z * Z * Z * Z * Z) -> Z -> Z * Z -> bool) : bool :=
@@ -339,20 +342,23 @@ Definition p04 (k : case) (P : list aparam) (o : obs) (ws : list (Z * Z)) : Z :=
               | Some p => (cur + i <=? ap_limit p) && (0 <=? og) && (og <=? cur) && (negb (ap_tl p) || (snd w <=? ap_tbl p))
               | None => true
               end) in
-  if negb c1 then 1 else if negb c2 then 2 else if negb c3 then 3 else if negb c4 then 4 else 0.
+  if negb c1 then 1 else if negb c2 then 2 else if negb c3 then 3 else if lim && negb c4 then 4 else 0.
 
 (** ** one pass over the case *)
 Record verdict := mkV { v_corr : Z; v_p03 : Z; v_c03 : Z; v_p04 : Z; v_c04 : Z }.
 
 (** Parameter changes.  The limit clauses of [p04] and the window bookkeeping use the parameters IN FORCE
-    (the stored parameters as observed, [o_params]).  [act]: the property monitors stay on across
-    rejected and across COMPATIBLE accepted changes ([compat_b] on the model state: denoms kept, the
-    new limits cover the usage) - exactly the histories of the theorems; after an incompatible accepted
-    change (a valid claim may then legitimately fail, limits may be exceeded) only the correspondence
-    is checked for the rest of the case. *)
+    (the stored parameters as observed, [o_params]).  Two flags:
+    - [full]: everything is checked.  It stays on across rejected and across COMPATIBLE accepted changes
+      ([compat_b] on the model state: denoms kept, the new limits cover the usage) - the histories of the
+      main theorems.
+    - after an INCOMPATIBLE accepted change that keeps the denoms ([same_denoms_b]) the monitors go on
+      WITHOUT the limit clause of [p04] and with the "only if" half of the claim clause of [p03] - what
+      Htlc/CoreHist.v proves for every such history ([act] on, [full] off);
+    - after a change that removes or adds an asset only the correspondence is checked ([act] off). *)
 Definition is_setparams (c : cop) : bool := match c with CSetParams _ _ => true | _ => false end.
 
-Fixpoint check_from (k : case) (act : bool) (s : state) (po : obs) (ws : list (Z * Z)) (steps : list (cop * dobs)) (i : Z) (v : verdict) : verdict :=
+Fixpoint check_from (k : case) (act full : bool) (s : state) (po : obs) (ws : list (Z * Z)) (steps : list (cop * dobs)) (i : Z) (v : verdict) : verdict :=
   match steps with
   | [] => v
   | (c, d) :: rest =>
@@ -361,23 +367,29 @@ Fixpoint check_from (k : case) (act : bool) (s : state) (po : obs) (ws : list (Z
       let s' := step s mo in
       let code := if step_ok s mo then 0 else 1 in
       let corr := if (v_corr v <? 0) && negb (op_wf k c && corr_obs k s' code o) then i else v_corr v in
-      let r03 := if act then p03 k po c o else 0 in
+      let incompatible := match c with
+                          | CSetParams _ P' => (o_code o =? 0) && negb (compat_b s P')
+                          | _ => false
+                          end in
+      let denoms_changed := match c with
+                            | CSetParams _ P' => (o_code o =? 0) && negb (same_denoms_b s P')
+                            | _ => false
+                            end in
+      let act' := act && negb denoms_changed in
+      let full' := full && negb incompatible in
+      let r03 := if act then p03 k full po c o else 0 in
       let ws' := match c with
                  | CAdv dts => wticks k (o_params po) ws dts
                  | CAdvN n dt => wticks k (o_params po) ws (repeat dt (Z.to_nat n))
                  | _ => wclaims k po o ws
                  end in
-      let incompatible := match c with
-                          | CSetParams _ P' => (o_code o =? 0) && negb (compat_b s P')
-                          | _ => false
-                          end in
-      let r04 := if act && negb incompatible then p04 k (o_params o) o ws' else 0 in
+      let r04 := if act' then p04 k full' (o_params o) o ws' else 0 in
       let v' := mkV corr
                     (if (v_p03 v <? 0) && negb (r03 =? 0) then i else v_p03 v)
                     (if (v_p03 v <? 0) && negb (r03 =? 0) then r03 else v_c03 v)
                     (if (v_p04 v <? 0) && negb (r04 =? 0) then i else v_p04 v)
                     (if (v_p04 v <? 0) && negb (r04 =? 0) then r04 else v_c04 v) in
-      check_from k (act && negb incompatible) s' o ws' rest (i + 1) v'
+      check_from k act' full' s' o ws' rest (i + 1) v'
   end.
 
 (** ** the hypotheses of the theorems of Props/C03.v and Props/C04.v, decided per case: asset limits
@@ -413,8 +425,8 @@ Definition check_all (k : case) : verdict :=
   let s0 := init (k_params k) (bank_of k (k_obs0 k)) (o_time (k_obs0 k)) in
   let ws0 := map (fun _ => (0, 0)) (k_params k) in
   let v0 := mkV (if corr_obs k s0 0 (k_obs0 k) && hyps0_b k then -1 else 0) (-1) 0
-                (if p04 k (o_params (k_obs0 k)) (k_obs0 k) ws0 =? 0 then -1 else 0) (p04 k (o_params (k_obs0 k)) (k_obs0 k) ws0) in
-  check_from k true s0 (k_obs0 k) ws0 (k_steps k) 0 v0.
+                (if p04 k true (o_params (k_obs0 k)) (k_obs0 k) ws0 =? 0 then -1 else 0) (p04 k true (o_params (k_obs0 k)) (k_obs0 k) ws0) in
+  check_from k true true s0 (k_obs0 k) ws0 (k_steps k) 0 v0.
 
 (** (first diverging step or -1, first step violating the property or -1, violated clause) *)
 Definition check_case_C03 (k : case) : Z * Z * Z := let v := check_all k in (v_corr v, v_p03 v, v_c03 v).
